@@ -9,6 +9,7 @@ import Hy.Drv.Rate
 import Hy.Drv.Frag
 import Hy.Drv.Salamander
 import Hy.Drv.Acl
+import Hy.Drv.Punch
 
 open Hy.Drv
 
@@ -38,4 +39,6 @@ def main (args : List String) : IO UInt32 := do
   | ["defrag"] => loopState stdin stdout Frag.stepSt Frag.init; return 0
   | ["salamander"] => loopPure stdin stdout Salamander.step; return 0
   | ["acl"] => loopState stdin stdout Acl.step Acl.init; return 0
+  | ["punchcodec"] => loopPure stdin stdout Punch.stepCodec; return 0
+  | ["punchconn"] => loopState stdin stdout Punch.stepConn Punch.initConn; return 0
   | _ => IO.eprintln "usage: hydrv <component>"; return 2
